@@ -141,12 +141,23 @@ def build_scene(scene: dict, root: str, *, drop_meta: bool = False) -> dict | No
             # arithmetic in the resampling code meets numbers it never sees with a handful of patches
             npatch = int(scene["many"])
             rng = np.random.default_rng(scene["data_seed"] + 4242)
-            m = 2 * npatch + int(rng.integers(0, npatch))
-            pid = np.concatenate([np.arange(npatch), np.arange(npatch), rng.integers(0, npatch, m - 2 * npatch)])
-            rec = dict(
-                ra=rng.uniform(10.0, 30.0, m), dec=rng.uniform(-10.0, 10.0, m),
-                w=rng.integers(1, 17, m) / 4.0, z=rng.uniform(edges[0], edges[-1], m),
-            )
+            if scene.get("many_flat"):
+                # equal patches: two objects each, all in the first bin, weights 1 +- 1 %: the
+                # leave-one-out samples share a value that is ~1e5 times their scatter
+                m = 2 * npatch
+                pid = np.concatenate([np.arange(npatch), np.arange(npatch)])
+                rec = dict(
+                    ra=rng.uniform(10.0, 30.0, m), dec=rng.uniform(-10.0, 10.0, m),
+                    w=1.0 + 0.01 * rng.uniform(-1.0, 1.0, m),
+                    z=np.full(m, 0.5 * (edges[0] + edges[1])),
+                )
+            else:
+                m = 2 * npatch + int(rng.integers(0, npatch))
+                pid = np.concatenate([np.arange(npatch), np.arange(npatch), rng.integers(0, npatch, m - 2 * npatch)])
+                rec = dict(
+                    ra=rng.uniform(10.0, 30.0, m), dec=rng.uniform(-10.0, 10.0, m),
+                    w=rng.integers(1, 17, m) / 4.0, z=rng.uniform(edges[0], edges[-1], m),
+                )
             df = wl.make_dataframe(rec, pid.astype("i4"))
             yaw.Catalog.from_dataframe(
                 os.path.join(root, "many"), df, chunksize=scene.get("chunksize"), max_workers=1,
